@@ -273,6 +273,13 @@ impl NetHandle {
     pub fn idle(&self) -> bool {
         self.a2b.lock().unwrap().is_idle() && self.b2a.lock().unwrap().is_idle()
     }
+    /// Stop (or resume) delivery in the direction A -> B only: what A writes stays in flight, and
+    /// once the capacity of the direction is used up A's writes stay pending
+    pub fn freeze_a2b(&self, frozen: bool) {
+        let mut g = self.a2b.lock().unwrap();
+        g.frozen = frozen;
+        g.wake_all();
+    }
     pub fn freeze(&self, frozen: bool) {
         for p in [&self.a2b, &self.b2a] {
             let mut g = p.lock().unwrap();
